@@ -84,11 +84,14 @@ func zzH_C02r() {
 		conn.SetPipelining(true)
 		vTag("pipelining")
 	}
-	var c *Call
-	var reply []byte
+	K := vParam("c02r.K", 2)
+	cs := make([]*Call, K)
+	replies := make([][]byte, K)
 	args := []byte{0x61}
 	vGo("caller", func() {
-		c = conn.Go("S.M", &args, &reply, make(chan *Call, 2))
+		for i := 0; i < K; i++ {
+			cs[i] = conn.Go("S.M", &args, &replies[i], make(chan *Call, 2))
+		}
 	})
 	if vChoose("cut", 2) == 0 {
 		m.fail(io.EOF)
@@ -97,9 +100,11 @@ func zzH_C02r() {
 	}
 	vAtEnd(func() {
 		vAssert(vBlocked() == 0, "no-goroutine-stuck")
-		if c != nil {
-			vAssertOn(len(c.Done) == 1, "exactly-once", c)
-			vAssert(c.Error != nil, "outstanding-call-fails")
+		for _, c := range cs {
+			if c != nil {
+				vAssertOn(len(c.Done) == 1, "exactly-once", c)
+				vAssert(c.Error != nil, "outstanding-call-fails")
+			}
 		}
 		vReach("end")
 	})
